@@ -3,17 +3,22 @@
 (*                                                                                                  *)
 (*   node       type bytes ++ id bytes                              (triple/node/node.go  UUID)     *)
 (*   predicate  id ++ "immutable"  |  id ++ PutVarint(UnixNano) in a zeroed 16-byte buffer          *)
-(*   literal    type name ++ ":" ++ payload, payload = "true"/"false" | PutVarint(v) in a zeroed    *)
-(*              8-byte buffer (UNDEFINED when the varint needs 9 or 10 bytes: the code panics) |    *)
-(*              IEEE-754 bits little endian | the text | the blob                                   *)
-(*   object     the byte string of the boxed value, WITHOUT any tag for node/predicate/literal      *)
+(*   literal    type name ++ ":" ++ payload, payload = "true"/"false" | PutVarint(v) padded with    *)
+(*              zeros to 8 bytes, in full when it needs 9 or 10 bytes | IEEE-754 bits little endian *)
+(*              | the text | the blob                                                               *)
+(*   object     the byte string of the boxed node or literal; "predicate:" ++ UUID(p) for a boxed   *)
+(*              predicate (a tag no node or literal byte string starts with: modelled by -1)        *)
+(* IdentityU.Repaired = FALSE gives the design as first read: the int64 varint written into an      *)
+(* 8-byte buffer (UNDEFINED when it needs 9 or 10 bytes: the code panicked) and objects without any *)
+(* tag; its counterexamples were confirmed on the real code and repaired there (fixed: entries).    *)
 (*   triple     UUID(subject) ++ UUID(predicate) ++ UUID(object)                                    *)
 (*                                                                                                  *)
 (* SHA1 is assumed injective, so UUID(v) is represented by Bytes(v) itself and a triple by the      *)
 (* sequence of its three component byte strings.  The property the stores rely on is                *)
 (*     Injective == equal bytes => SameValue       (and Total: every value has a byte string)       *)
 (* TLC evaluates it for ALL pairs of the near-miss universe (IdentityU, generated from              *)
-(* universe/values.json).  It is expected to FAIL on the present design; every failing pair is      *)
+(* universe/values.json).  Every failing pair is printed   *)
+(* (the node type/id boundary and the UnixNano wrap-around still fail);                            *)
 (* printed as a candidate <<"COLLIDE", i, j>> / <<"UNDEF", i>> and becomes a finding only after the *)
 (* Go driver has confirmed it on the real code (UUID(), Triple.Equal, Graph.Exist) and the recorded  *)
 (* events were rejected by the Layer A monitor ValueTrace.tla.  Unconfirmed candidates are model     *)
@@ -43,22 +48,25 @@ IsFloat(v) == v.k = "lit" /\ v.a = <<102, 108, 111, 97, 116, 54, 52>>        \* 
 
 RECURSIVE Defined(_)
 Defined(i) == LET v == U[i] IN
-    CASE IsInt(v)        -> Len(v.enc) <= 8          \* binary.PutVarint into make([]byte, 8)
+    CASE IsInt(v)        -> Repaired \/ Len(v.enc) <= 8     \* as first read: binary.PutVarint into make([]byte, 8)
       [] v.k = "obj"     -> Defined(v.ref[1])
       [] v.k = "triple"  -> Defined(v.ref[1]) /\ Defined(v.ref[2]) /\ Defined(v.ref[3])
       [] OTHER           -> TRUE
 
-Payload(v) == IF IsInt(v) THEN Pad(v.enc, 8)
+Payload(v) == IF IsInt(v) THEN (IF Len(v.enc) < 8 THEN Pad(v.enc, 8) ELSE v.enc)
               ELSE IF IsFloat(v) THEN v.enc
               ELSE v.b
 
 RECURSIVE Bytes(_)
-Bytes(i) == LET v == U[i] IN
+Bytes(i) == LET v == U[i]
+                \* the value in OBJECT position: a boxed predicate carries the "predicate:" tag (modelled by -1)
+                ObjBytes(r) == IF Repaired /\ U[r].k = "pred" THEN <<-1>> \o Bytes(r) ELSE Bytes(r)
+            IN
     CASE v.k = "node"   -> v.a \o v.b
       [] v.k = "pred"   -> v.a \o (IF v.imm THEN IMMUTABLE ELSE Pad(v.enc, 16))
       [] v.k = "lit"    -> v.a \o <<COLON>> \o Payload(v)
-      [] v.k = "obj"    -> Bytes(v.ref[1])                                   \* no kind tag
-      [] v.k = "triple" -> <<Bytes(v.ref[1]), Bytes(v.ref[2]), Bytes(v.ref[3])>>
+      [] v.k = "obj"    -> ObjBytes(v.ref[1])
+      [] v.k = "triple" -> <<Bytes(v.ref[1]), Bytes(v.ref[2]), ObjBytes(v.ref[3])>>
 
 \* ---- Layer A value equality on the universe (components; instants zone-free) -------------------
 RECURSIVE SameValue(_, _)
